@@ -72,4 +72,23 @@ func init() {
 		Old: "\tif !success || res.criticalSectionState == acceptedNewValueInCriticalSection {", New: "\tif !success {", Expect: "state=hasPreCommitted"})
 	seed(Seed{Name: "abort-sender-gives-up-after-error", Prop: "C11", Rule: "TPC-RETRY", File: res + "twopc.go",
 		Old: "(will retry)\", request.RequestType, i, err)\n\t\t\t\ttime.Sleep(1 * time.Second)\n", New: "(will retry)\", request.RequestType, i, err)\n\t\t\t\tbreak\n", Expect: "retry-until-delivered"})
+	// C13 round 2
+	seed(Seed{Name: "crdt-abort-restores-when-no-snapshot", Prop: "C13", Rule: "CRDT-SECTION", File: res + "crdt.go",
+		Old: "\tif res.hasOldValue {\n\t\tres.value = res.oldValue\n", New: "\tif !res.hasOldValue {\n\t\tres.value = res.oldValue\n", Expect: "Abort:restores-iff-snapshot"})
+	seed(Seed{Name: "crdt-commit-arms-when-not-written", Prop: "C13", Rule: "CRDT-SECTION", File: res + "crdt.go",
+		Old: "\tif hasWritten {\n", New: "\tif !hasWritten {\n", Expect: "Commit:arms-iff-written"})
+	seed(Seed{Name: "crdt-write-not-applied", Prop: "C13", Rule: "CRDT-SECTION", File: res + "crdt.go",
+		Old: "\tres.value = res.value.Write(res.id, value)\n", New: "\t_ = value\n", Expect: "WriteValue:applies-write"})
+	seed(Seed{Name: "crdt-broadcast-skips-when-owed", Prop: "C13", Rule: "CRDT-SECTION", File: res + "crdt.go",
+		Old: "\t\treturn res.needBroadcastCount > 0\n\t}() {", New: "\t\treturn res.needBroadcastCount <= 0\n\t}() {", Expect: "skips-only-when-budget-spent"})
+	seed(Seed{Name: "crdt-spends-budget-on-error", Prop: "C13", Rule: "CRDT-SECTION", File: res + "crdt.go",
+		Old: "\t\t\tif call.Error != nil {\n", New: "\t\t\tif call.Error == nil {\n", Expect: "broadcast:"})
+	seed(Seed{Name: "crdt-merger-never-started", Prop: "C13", Rule: "CRDT-SECTION", File: res + "crdt.go",
+		Old: "\tgo crdt.merger()\n", New: "", Expect: "starts-merger"})
+	seed(Seed{Name: "crdt-handoff-nonblocking", Prop: "C13", Rule: "CRDT-SECTION", File: res + "crdt.go",
+		Old: "\t\tres.mergeValues <- rcvd\n", New: "\t\tselect {\n\t\tcase res.mergeValues <- rcvd:\n\t\tdefault:\n\t\t}\n", Expect: "blocking-handoff"})
+	// ITER-FRESH
+	seed(Seed{Name: "forall-parks-iterators", Prop: "C03", Rule: "ITER-FRESH", File: "distsys/tla/builtins.go",
+		Old: "\tvar helper func(idx int) bool\n\thelper = func(idx int) bool {\n\t\tif idx == len(sets) {\n\t\t\treturn pred(predArgs)\n\t\t}\n\n\t\tit := sets[idx].Iterator()\n\t\tfor !it.Done() {\n\t\t\telem, _, _ := it.Next()\n\t\t\tpredArgs[idx] = elem\n\t\t\tif !helper(idx + 1) {",
+		New: "\tparked := map[int]*immutable.MapIterator[Value, bool]{}\n\tvar helper func(idx int) bool\n\thelper = func(idx int) bool {\n\t\tif idx == len(sets) {\n\t\t\treturn pred(predArgs)\n\t\t}\n\n\t\tif parked[idx] == nil {\n\t\t\tparked[idx] = sets[idx].Iterator()\n\t\t}\n\t\tit := parked[idx]\n\t\tfor !it.Done() {\n\t\t\telem, _, _ := it.Next()\n\t\t\tpredArgs[idx] = elem\n\t\t\tif !helper(idx + 1) {", Expect: "QuantifiedUniversal"})
 }
